@@ -79,7 +79,7 @@ Wake(s, on) == IF s.task.pc = on /\ ~s.task.woken
 \* the status pair and the outputs.  Runtime members (stepping flag, interrupt actions, waiting future,
 \* the stepping task, closedness) are not persisted.  nlog/expect are bookkeeping of the harness/monitors.
 Persist(s) == [has |-> TRUE, st |-> s.st, cur |-> s.cur, pausedF |-> s.pausedF, status |-> s.status,
-               preStatus |-> s.preStatus, fut |-> s.fut, outputs |-> s.outputs,
+               preStatus |-> s.preStatus, fut |-> s.fut, outputs |-> s.outputs, inState |-> s.inState,
                nlog |-> Len(s.log), expect |-> s.mon.expect]
 TakeSnapshot(s) == LET s1 == Note(s, <<"saved">>) IN [s1 EXCEPT !.snap = Persist(s1)]
 
@@ -248,14 +248,16 @@ Unregister(s) == [s EXCEPT !.awt = [i \in DOMAIN @ |-> IF i \in s.awaiting THEN 
 ReleaseWait(s) == IF "F7" \in Fixes /\ s.wf.st = "pending"
                   THEN Wake([s EXCEPT !.wf = [st |-> "result", val |-> "NULL", cookie |-> 0]], "awaitWF") ELSE s
 
+\* self._state.do_exit(): (Waiting) drop the done-callbacks, release a blocked execute; in_state = False
+DoExit(s) == [(IF s.st = "WAITING" THEN ReleaseWait(Unregister(s)) ELSE s) EXCEPT !.inState = FALSE]
+
 ExitCurrent(s, new) ==                    \* _exit_current_state
   IF s.st = "NONE"                          \* being constructed: nothing to exit, only the initial state may be entered
   THEN (IF new.label = "CREATED" THEN Ok(s, None) ELSE Err(s, "RuntimeError"))
   ELSE IF new.label \notin Allowed(s.st) THEN Err(s, "RuntimeError")
   ELSE LET a == IF s.closed THEN Ok(s, None)       \* close() dropped the event callbacks
                 ELSE Then(OnExiting(s), LAMBDA t : Hook(t, "cb_exiting"))
-       IN IF a.exc # NoExc THEN a
-          ELSE Ok(IF a.s.st = "WAITING" THEN ReleaseWait(Unregister(a.s)) ELSE a.s, None)      \* self._state.do_exit()
+       IN IF a.exc # NoExc THEN a ELSE Ok(DoExit(a.s), None)
 
 EnterNext(s, new) ==                      \* _enter_next_state
   LET last == s.st
@@ -269,7 +271,7 @@ EnterNext(s, new) ==                      \* _enter_next_state
      LET s0 == IF new.label = "WAITING"                                          \* next_state.do_enter()
                THEN RegisterAll([a.s EXCEPT !.awaiting = {new.aw[i] : i \in 1..Len(new.aw)},
                                             !.watched = {new.aw[i] : i \in 1..Len(new.aw)}], new.aw) ELSE a.s
-         s1 == [s0 EXCEPT !.st = new.label, !.cur = new,
+         s1 == [s0 EXCEPT !.st = new.label, !.cur = new, !.inState = TRUE,
                            !.wf = IF new.label = "WAITING" THEN [st |-> "pending", val |-> None, cookie |-> 0] ELSE @,
                            !.keep = IF new.label = "WAITING" THEN NoKeep ELSE @,
                            !.mon.resumed = IF new.label = "WAITING" THEN FALSE ELSE @,
@@ -281,7 +283,11 @@ EnterNext(s, new) ==                      \* _enter_next_state
 Finally(s) == [s EXCEPT !.failing = FALSE, !.transitioning = FALSE]
 
 TransitionBody(s, new) ==                 \* the try block; .label = label being entered on failure
-  LET a == IF s.failing THEN Ok(s, None) ELSE ExitCurrent(s, new) IN
+  \* the failed-transition route does not exit (no hooks); F15: a live state the failed transition did not get to leave
+  \* (an exit hook raised, or a hook of its own entry) is left now, such that it releases what it holds (as written: D7)
+  LET a == IF ~s.failing THEN ExitCurrent(s, new)
+           ELSE IF "F15" \in Fixes /\ s.inState /\ s.st \in Live THEN Ok(DoExit(s), None)
+           ELSE Ok(s, None) IN
   IF a.exc # NoExc THEN [a EXCEPT !.ret = new.label] ELSE
   LET b == EnterNext(a.s, new) IN
   IF b.exc = "StateEntryFailed"
@@ -568,7 +574,7 @@ Advance(s) ==
 (* ----------------------------------------------------------------------------------------------- *)
 \* Process.__init__: the members before the metaclass enters the initial state
 FreshS(pi, pl) ==
-  [pi |-> pi, pl |-> pl, st |-> "NONE", cur |-> NoState, born |-> FALSE,
+  [pi |-> pi, pl |-> pl, st |-> "NONE", cur |-> NoState, born |-> FALSE, inState |-> FALSE,
    stepping |-> FALSE, transitioning |-> FALSE, failing |-> FALSE,
    pausedF |-> "none", status |-> None, preStatus |-> None,
    acts |-> <<>>, pausing |-> 0, killing |-> 0, intr |-> 0,
@@ -601,7 +607,7 @@ InitS(pi, pl) == Construct(FreshS(pi, pl))
 \* Events of the abandoned instance after the checkpoint do not count (log cut at the checkpoint).
 Restore(s) ==
   LET b == s.snap IN
-  [FreshS(s.pi, s.pl) EXCEPT !.born = TRUE, !.subs = s.comm, !.st = b.st, !.cur = b.cur, !.pausedF = b.pausedF, !.status = b.status,
+  [FreshS(s.pi, s.pl) EXCEPT !.born = TRUE, !.subs = s.comm, !.st = b.st, !.cur = b.cur, !.inState = b.inState, !.pausedF = b.pausedF, !.status = b.status,
                             !.preStatus = b.preStatus, !.fut = b.fut, !.outputs = b.outputs,
                             !.log = Append(SubSeq(s.log, 1, b.nlog), <<"restored">>),
                             !.occ = s.occ, !.snap = b, !.restores = s.restores + 1, !.mon.expect = b.expect]
